@@ -67,11 +67,24 @@ MUTANTS = [
      "                           'tab': 'tab', 'tex': 'latex', 'html': "
      "'html'}", "                           'tab': 'tab', 'tex': 'latex'}",
      "C18-R6"),
+    ("float32 not recognised by sqlTypes (seed C18b)",
+     "AegeanTools/catalogs.py",
+     "a float\n            elif isinstance(val, (float, np.float64, np.float32)):",
+     "a float\n            elif isinstance(val, (float, np.float64)):", "C18-R7"),
+    ("numpy ints as text", "AegeanTools/catalogs.py",
+     "types.append(\"BOOL\")\n            elif isinstance(val, (int, np.int64, np.int32)):",
+     "types.append(\"BOOL\")\n            elif isinstance(val, int):", "C18-R7"),
+    ("float32 not recognised by FITSTableType", "AegeanTools/catalogs.py",
+     "        elif isinstance(val, (float, np.float64, np.float32)):\n            types = \"E\"",
+     "        elif isinstance(val, (float, np.float64)):\n            types = \"E\"", "C18-R7"),
 ]
 TWINS = [
     ("double precision errors", "AegeanTools/catalogs.py",
      "        if name.startswith('err_'):\n            fmt = 'E'",
      "        if name.startswith('err_'):\n            fmt = 'D'"),
+    ("abstract numpy scalar classes", "AegeanTools/catalogs.py",
+     "a float\n            elif isinstance(val, (float, np.float64, np.float32)):",
+     "a float\n            elif isinstance(val, (float, np.floating)):"),
 ]
 
 
@@ -373,3 +386,141 @@ def run(ctx):
                   ext in handled, "'.%s' is advertised as supported but "
                   "falls through to the 'extension not recognised' branch" %
                   ext, node=sc.node)
+
+    r7(ctx, prog)
+
+
+# numpy / python scalar types a source attribute can hold, with the classes
+# isinstance() accepts them under (numpy's documented scalar hierarchy)
+SCALARS = {
+    "float": {"float", "numbers.Real", "numbers.Number"},
+    "numpy.float64": {"float", "numpy.float64", "numpy.double",
+                      "numpy.floating", "numpy.inexact", "numpy.number",
+                      "numpy.generic", "numbers.Real", "numbers.Number"},
+    "numpy.float32": {"numpy.float32", "numpy.single", "numpy.floating",
+                      "numpy.inexact", "numpy.number", "numpy.generic",
+                      "numbers.Real", "numbers.Number"},
+    "int": {"int", "numbers.Integral", "numbers.Real", "numbers.Number"},
+    "numpy.int64": {"numpy.int64", "numpy.integer", "numpy.signedinteger",
+                    "numpy.number", "numpy.generic", "numpy.int_",
+                    "numbers.Integral", "numbers.Real", "numbers.Number"},
+    "numpy.int32": {"numpy.int32", "numpy.integer", "numpy.signedinteger",
+                    "numpy.number", "numpy.generic", "numpy.intc",
+                    "numbers.Integral", "numbers.Real", "numbers.Number"},
+    "str": {"str"},
+}
+AFFINITY = {"INT": "integer", "INTEGER": "integer", "BIGINT": "integer",
+            "FLOAT": "real", "REAL": "real", "DOUBLE": "real",
+            "VARCHAR": "text", "TEXT": "text", "CHAR": "text",
+            "BOOL": "numeric", "BOOLEAN": "numeric"}
+WANT = {"float": "real", "numpy.float64": "real", "numpy.float32": "real",
+        "int": "integer", "numpy.int64": "integer", "numpy.int32": "integer",
+        "str": "text"}
+
+
+FITS_AFF = {"J": "integer", "K": "integer", "I": "16-bit integer",
+            "E": "real", "D": "real", "A": "text", "L": "numeric"}
+
+
+def _branch_value(body):
+    """the string constant a dispatch branch appends / assigns"""
+    for x in body:
+        for c in ast.walk(x):
+            v = None
+            if isinstance(c, ast.Call) and \
+                    isinstance(c.func, ast.Attribute) and \
+                    c.func.attr == "append" and c.args:
+                v = c.args[0]
+            elif isinstance(c, ast.Assign):
+                v = c.value
+            elif isinstance(c, ast.Return):
+                v = c.value
+            if isinstance(v, ast.Constant) and isinstance(v.value, str):
+                return v.value
+            if isinstance(v, ast.Call) and \
+                    isinstance(v.func, ast.Attribute) and \
+                    v.func.attr == "format" and \
+                    isinstance(v.func.value, ast.Constant):
+                return v.func.value.value
+            if isinstance(v, ast.JoinedStr):
+                return "".join(p.value for p in v.values
+                               if isinstance(p, ast.Constant))
+    return None
+
+
+def r7(ctx, prog):
+    ctx.rule("C18-R7", "type dispatch of the sqlite and FITS writers: the "
+             "isinstance chains of writeDB.sqlTypes and writeFITSTable."
+             "FITSTableType send every scalar type a source field can hold "
+             "(python and numpy floats incl. float32 -- numpy.float32 is NOT "
+             "a python float --, python and numpy ints, str) to a column "
+             "type of the matching kind; a float in a TEXT / 'A' column is "
+             "stored as text")
+    n = 0
+    for outer, inner, table in (
+            ("catalogs.writeDB", "sqlTypes", AFFINITY),
+            ("catalogs.writeFITSTable", "FITSTableType", FITS_AFF)):
+        n += _dispatch(ctx, prog, outer, inner, table)
+    ctx.floor("C18-R7", n, 14, "scalar types dispatched")
+
+
+def _dispatch(ctx, prog, outer, inner, table):
+    wd = prog.func(outer)
+    st = prog.functions.get(wd.qualname + "." + inner)
+    if st is None:
+        raise AnalysisError("C18-R7: %s.%s not found" % (outer, inner))
+    mod = prog.modules[st.module]
+    chain = []          # [(set of accepted class names, type code, node)]
+
+    def classes(e):
+        elts = e.elts if isinstance(e, ast.Tuple) else [e]
+        out = set()
+        for x in elts:
+            d = norm(x) if isinstance(x, ast.Name) and \
+                x.id in ("int", "float", "str", "bool", "bytes") else \
+                prog.dotted(mod, x)
+            if d is None:
+                raise AnalysisError("C18-R7: class %s in the isinstance "
+                                    "test not resolved" % norm(x))
+            out.add(d)
+        return out
+    top = [s_ for s_ in walk_no_nested(st.node) if isinstance(s_, ast.If) and
+           isinstance(s_.test, ast.Call) and
+           norm(s_.test.func) == "isinstance"]
+    if not top:
+        raise AnalysisError("C18-R7: isinstance chain not found in %s" %
+                            inner)
+    node = top[0]
+    while True:
+        t = node.test
+        if not (isinstance(t, ast.Call) and norm(t.func) == "isinstance"
+                and len(t.args) == 2):
+            raise AnalysisError("C18-R7: branch test %s" % norm(t))
+        chain.append((classes(t.args[1]), _branch_value(node.body), node))
+        if len(node.orelse) == 1 and isinstance(node.orelse[0], ast.If):
+            node = node.orelse[0]
+            continue
+        default = _branch_value(node.orelse)
+        break
+
+    def aff(code):
+        if code is None:
+            return None
+        c = code.upper().split("(")[0]
+        if table is FITS_AFF:
+            c = "".join(ch for ch in c if ch.isalpha())[-1:]
+        return table.get(c)
+    n = 0
+    for ty, accepted_as in sorted(SCALARS.items()):
+        got = default
+        for cls, code, nd in chain:
+            if cls & accepted_as:
+                got = code
+                break
+        n += 1
+        ctx.check("C18-R7", st, "%s -> %r" % (ty, got), aff(got) == WANT[ty],
+                  "a field holding a %s gets the column type %r (%s), "
+                  "expected a %s column: the value read back differs in "
+                  "type or precision from the one written" %
+                  (ty, got, aff(got), WANT[ty]), node=st.node)
+    return n
